@@ -10,7 +10,13 @@ NPROC = min(16, os.cpu_count() or 4)
 sys.path.insert(0, os.path.join(VERIF, "py2coq"))
 sys.path.insert(0, os.path.join(VERIF, "harness"))
 
-ALL_MODULES = ["base", "Angle", "Epoch", "Interpolation", "CurveFitting", "Coordinates"]
+ALL_MODULES = ["base", "Angle", "Epoch", "Interpolation", "CurveFitting", "Coordinates", "Earth", "Sun", "Moon",
+               "Mercury", "Venus", "Mars", "Jupiter", "Saturn", "Uranus", "Neptune", "Pluto", "Minor"]
+
+
+def mods(*names):
+    """module list in the canonical (dependency) order"""
+    return [m for m in ALL_MODULES if m in names]
 
 ENV = dict(os.environ, PYTHONPATH=REPO, PYTHONHASHSEED="0", PIP_NO_INDEX="1",
            PYTHONDONTWRITEBYTECODE="1")
@@ -48,7 +54,10 @@ def sha_files(paths):
 
 
 def static_sources():
-    return (glob.glob(os.path.join(VERIF, "coq", "lib", "*.v"))
+    """files the generated model's .vo depend on besides the Python sources: the translator and
+    the two library files the generated code imports.  Other lib files (B64, Ideal, PyEval, ...)
+    are tracked by make's own dependencies when proofs are compiled."""
+    return ([os.path.join(VERIF, "coq", "lib", f) for f in ("PyVal.v", "PyBuiltins.v")]
             + glob.glob(os.path.join(VERIF, "py2coq", "*.py")))
 
 
@@ -114,7 +123,7 @@ def generate(modules, log):
         return bdir, tr.report, True, "generated"
 
 
-def prune_builds(keep, n=3):
+def prune_builds(keep, n=14):
     ds = [d for d in glob.glob(os.path.join(BUILD, "*")) if os.path.isdir(d) and len(os.path.basename(d)) == 16]
     ds.sort(key=os.path.getmtime, reverse=True)
     for d in ds[n:]:
